@@ -20,6 +20,10 @@ Static clauses decided (necessary conditions of C28):
  CONV    JsonConverter.validate/dbval2val and ArrayConverter.validate/dbval2val return a tracked container whenever an
          owner object is given (every return is a Tracked* construction, or is guarded by `obj is None`, an
          already-tracked test, or a scalar test).
+ OWNERARG every database value that becomes an attribute value of an object is converted with the owner given: each call of
+         converter.dbval2val in core.py (Attribute.db_set for lazy attributes, Entity._db_set_ for fetched rows) passes the object
+         as second argument -- without it the Json/array converters hand back a plain dict/list and later in-place changes are
+         not tracked.
  BITS    the write bit that marks an attribute as changed is taken from the entity's `_bits_` table, which has a bit for every
          column-backed attribute.  `_bits_except_volatile_` (the table used for READ tracking, where volatile attributes have
          bit 0) must never feed `_wbits_`: a volatile Json/array attribute changed in place would get write bit 0, the object
@@ -193,6 +197,21 @@ def run(ctx):
             ctx.ob('C28-CONV.returns-tracked-when-owner-given', f, rn.ast, ok,
                    '' if ok else 'returns an untracked value although an owner object may be given', node=rn.ast)
     ctx.floor('C28-CONV', n, 9, 'return statements in Json/Array converters')
+    # ---------------------------------------------------------------- OWNERARG
+    nown = 0
+    for fn in ctx.repo.rule_funcs():
+        if fn.mod.name != 'pony.orm.core': continue
+        for c in calls_in(fn.node):
+            if not (isinstance(c.func, ast.Attribute) and c.func.attr == 'dbval2val'): continue
+            nown += 1
+            ok = len(c.args) >= 2 or any(k.arg == 'obj' for k in c.keywords)
+            if ok:
+                a = c.args[1] if len(c.args) >= 2 else [k.value for k in c.keywords if k.arg == 'obj'][0]
+                ok = not (isinstance(a, ast.Constant) and a.value is None)
+            ctx.ob('C28-OWNERARG.database-value-converted-with-its-owner', fn, c, ok,
+                   '' if ok else '%s converts a database value with `%s`, without the owner object: for Json/array attributes the session gets a plain container and in-place '
+                   'changes made to it are never written' % (fn.qual, norm(c)), node=c, expected='converter.dbval2val(dbval, obj)')
+    ctx.floor('C28-OWNERARG', nown, 2, 'dbval2val call sites in core.py')
     # ---------------------------------------------------------------- BITS
     nb = 0
     for fn in ctx.repo.rule_funcs():
@@ -250,6 +269,7 @@ def def_reaches_changed(ctx, cls, f, muts):
 
 
 MUTANTS = [
+    dict(id='C28-oa1', file='pony/orm/core.py', fn='Attribute.db_set', old="attr.converters[0].dbval2val(new_dbval, obj)", new="attr.converters[0].dbval2val(new_dbval)", expect='C28-OWNERARG'),
     dict(id='C28-b1', file='pony/orm/core.py', fn='Entity._attr_changed_', old="        bit = obj._bits_[attr]", new="        bit = obj._bits_except_volatile_[attr]", expect='C28-BITS'),
     dict(id='C28-m1', file='pony/orm/ormtypes.py', old='    popitem = tracked_method(dict.popitem)\n', new='', expect='TrackedDict.popitem'),
     dict(id='C28-m2', file='pony/orm/ormtypes.py', old='    sort = tracked_method(list.sort)\n', new='', expect='TrackedList.sort'),
